@@ -1050,3 +1050,96 @@ func runC03_13(c *core.Ctx) {
 		}
 	}
 }
+
+func init() {
+	register(&core.Rule{ID: "C03.14", Prop: "C03", MinSites: 1, Applies: func(c core.Config) bool { return c.IsLinux() },
+		Desc: "OpenPoller hands out a complete poller (both epoll variants; the poll_opt one is not compiled by the test suite): every return that is not on a failure edge (err != nil) has created the wake-up eventfd, registered it with AddRead and assigned both task queues from NewLockFreeQueue – a poller without its eventfd registration never wakes up for a task, one without a queue panics on the first Trigger",
+		Run:  runC03_14})
+}
+
+func runC03_14(c *core.Ctx) {
+	a := pollerOf(c)
+	f := getFn(c, "pkg/netpoll", "OpenPoller")
+	addRead := c.P.Func("pkg/netpoll", "Poller.AddRead")
+	newQ := c.P.Func("pkg/queue", "NewLockFreeQueue")
+	if a == nil || f == nil || !c.Need("AddRead", addRead) || !c.Need("NewLockFreeQueue", newQ) {
+		return
+	}
+	const (
+		fEventfd = 1 << iota
+		fAddRead
+		fLowQ
+		fUrgQ
+		fFail
+	)
+	p := &flow.Problem{Must: true}
+	p.Node = func(b *flow.Block, i int, n ast.Node, in uint64) uint64 {
+		for _, call := range flow.Calls(n) {
+			if flow.IsPkgFunc(f.Info, call, unixPkg, "Eventfd") {
+				in |= fEventfd
+			}
+			if flow.IsCall(f.Info, call, addRead) {
+				in |= fAddRead
+			}
+		}
+		flow.Events(n, func(x ast.Node) {
+			switch y := x.(type) {
+			case *ast.AssignStmt:
+				for k, l := range y.Lhs {
+					if len(y.Rhs) != len(y.Lhs) {
+						continue
+					}
+					if call, ok := ast.Unparen(y.Rhs[k]).(*ast.CallExpr); ok && flow.IsCall(f.Info, call, newQ) {
+						switch flow.FieldOf(f.Info, l) {
+						case a.lowQ:
+							in |= fLowQ
+						case a.urgQ:
+							in |= fUrgQ
+						}
+					}
+				}
+			case *ast.KeyValueExpr: // &Poller{asyncTaskQueue: queue.NewLockFreeQueue(), …}
+				if id, ok := y.Key.(*ast.Ident); ok {
+					if call, ok := ast.Unparen(y.Value).(*ast.CallExpr); ok && flow.IsCall(f.Info, call, newQ) {
+						switch f.Info.Uses[id] {
+						case types.Object(a.lowQ):
+							in |= fLowQ
+						case types.Object(a.urgQ):
+							in |= fUrgQ
+						}
+					}
+				}
+			}
+		})
+		return in
+	}
+	p.Edge = func(e *flow.Edge, in uint64) uint64 {
+		if e.Cond != nil && e.Tag == nil {
+			if x, y, op, ok := flow.Cmp(e.Cond); ok && flow.IsNil(f.Info, y) && isErrorType(f.Info.TypeOf(x)) && (op == token.NEQ) == e.Sense {
+				in |= fFail
+			}
+		}
+		return in
+	}
+	sol := f.Graph().Solve(p)
+	k, succ := 0, 0
+	sol.AtExit(func(b *flow.Block, facts uint64) {
+		k++
+		if facts&fFail != 0 {
+			return
+		}
+		// an explicit failure return (a non-nil error expression) is not a success either
+		if r := b.Return; r != nil && len(r.Results) == 2 && !flow.IsNil(f.Info, r.Results[1]) {
+			if _, isVar := flow.ObjOf(f.Info, r.Results[1]).(*types.Var); !isVar {
+				return
+			}
+		}
+		succ++
+		want := uint64(fEventfd | fAddRead | fLowQ | fUrgQ)
+		c.Check(facts&want == want, f.Name, "complete poller at return #"+itoa(k), b.Return.Pos(), "eventfd created and registered, both queues allocated",
+			"OpenPoller can return a poller (no failure established on this path) without having created the wake-up eventfd, registered it with AddRead, or allocated both task queues: tasks handed to it are never run (no wake-up) or Trigger panics on a nil queue")
+	})
+	if succ == 0 {
+		c.Violate(f.Name, "success return", f.Decl.Pos(), "OpenPoller has no return outside a failure edge")
+	}
+}
